@@ -1,10 +1,10 @@
 """which deductive kernel jobs carry which property"""
-from . import kernel_auxdata, kernel_compose, kernel_edges, kernel_intervals, kernel_edit, kernel_functions, kernel_join, kernel_othersec, kernel_remove, kernel_split
+from . import kernel_applymods, kernel_auxdata, kernel_compose, kernel_edges, kernel_intervals, kernel_edit, kernel_functions, kernel_join, kernel_othersec, kernel_remove, kernel_split
 
 # (module, predicate on obligation clause) : a kernel job is run once per property that lists it; evidence counts every
 # obligation of that job under the property (the clause letters G/L/E/T/C/F/O say which property each one carries)
 KERNELS = {
-    "C01": [kernel_edit, kernel_split, kernel_join, kernel_compose, kernel_othersec],
+    "C01": [kernel_edit, kernel_split, kernel_join, kernel_compose, kernel_othersec, kernel_applymods],
     "C02": [kernel_split, kernel_join, kernel_remove, kernel_compose, kernel_othersec],
     "C03": [kernel_split, kernel_edges, kernel_join, kernel_remove, kernel_compose],
     "C04": [kernel_edit, kernel_split, kernel_join, kernel_remove, kernel_othersec],
